@@ -17,6 +17,8 @@
 
 package pilosa
 
+import "github.com/pilosa/pilosa/roaring"
+
 // Export shims for the verification harness (/verif, property C17). Add-only, tag-guarded.
 
 // VerifValCountReduce applies one of the ValCount reducers.
@@ -38,4 +40,29 @@ func VerifRowIDsMerge(a, b RowIDs, limit int) RowIDs { return a.merge(b, limit) 
 // VerifMergeGroupCounts exposes mergeGroupCounts.
 func VerifMergeGroupCounts(a, b []GroupCount, limit int) []GroupCount {
 	return mergeGroupCounts(a, b, limit)
+}
+
+// VerifC17NewRow builds a Row from explicit segments: shards[i] is the shard of segment i and
+// cols[i] its absolute column ids (possibly none — fragments return a segment even for an
+// empty row). Segments are built like fragment.rowFromStorage builds them.
+func VerifC17NewRow(shards []uint64, cols [][]uint64) *Row {
+	r := &Row{}
+	for i, shard := range shards {
+		r.segments = append(r.segments, rowSegment{
+			data:     roaring.NewSliceBitmap(cols[i]...),
+			shard:    shard,
+			writable: true,
+		})
+	}
+	r.invalidateCount()
+	return r
+}
+
+// VerifC17RowSegments returns the shard and the columns of every segment of r, in order.
+func VerifC17RowSegments(r *Row) (shards []uint64, cols [][]uint64) {
+	for i := range r.segments {
+		shards = append(shards, r.segments[i].shard)
+		cols = append(cols, r.segments[i].Columns())
+	}
+	return shards, cols
 }
